@@ -364,6 +364,183 @@ def entry_kind_agreement(prog, rep):
     rep.floor("process_entry implementations analysed", n, 8)
 
 
+GEN = "precis_tools::generators::ucd_generator::"
+UDATA = "precis_tools::ucd_parsers::UnicodeData"
+WRITER = "precis_tools::file_writer::generate_code_from_vec"
+
+
+def gap_semantics(prog, rep):
+    """(vi) UnassignedTableGen emits exactly the complement of the assigned code points, for every ascending
+    input: induction over state shapes (pv/accum.py). Ghost N = first code point not yet accounted for."""
+    from .. import accum as ac
+    from .. import linform as lf
+    from .. import types as ty_
+
+    new_key = GEN + "UnassignedTableGen::new"
+    step_key = "<%sUnassignedTableGen as %sUcdLineParser<%s>>::process_entry" % (GEN, GEN, UDATA)
+    fin_key = "<%sUnassignedTableGen as precis_tools::generators::CodeGen>::generate_code" % GEN
+    rule = "gap-semantics"
+    for k in (new_key, step_key, fin_key):
+        if prog.body(k) is None:
+            rep.ob(rule, k, False, "function not found", key="%s|anchor" % rule)
+            return
+    rep.fn(new_key, step_key, fin_key)
+    where = prog.body(step_key).where()
+    world = ac.AccWorld(prog, writers=(WRITER,))
+    m = ip.Machine(prog, world)
+    try:
+        # base case: the constructor's state, N = 0
+        outs = m.run(m.start(new_key, [ip.Str(("name",))]))
+        if len(outs) != 1 or outs[0].kind != "return" or not isinstance(outs[0].value, ip.Adt):
+            raise ip.AnalysisError("constructor has %d outcomes" % len(outs))
+        v0 = outs[0].value
+        v0 = ip.Adt(v0.ty, v0.variant, tuple(ip.Opq("vec", ("acc",)) if (isinstance(f, ip.Opq) and f.kind == "vec") else f for f in v0.fields))
+        init = ac.Shape(v0, {"N": (0, 0)})
+        udata_fields = prog.adts[UDATA]["variants"][0]["fields"]
+        bad = []
+
+        def make_args(sh, kind, st0):
+            n = ip.Sym("N", "u32")
+            first = lf.from_lf({"N": 1, "G": 1}, 0)
+            last = lf.from_lf({"N": 1, "G": 1, "W": 1}, 0)
+            entry = ac.single(first) if kind == "single" else ac.range_(first, last)
+            ud = ip.Adt(UDATA, 0, tuple([entry] + [ty_.fresh(prog, f["ty"], ("ud", i)) for i, f in enumerate(udata_fields[1:])]))
+            return [ip.Ref(("heap", ("arg", 0), ())), ip.Ref(("val", ud))]
+
+        def new_n(kind):
+            return ({"N": 1, "G": 1}, 1) if kind == "single" else ({"N": 1, "G": 1, "W": 1}, 1)
+
+        def on_path(sh, kind, o):
+            v = o.value
+            if isinstance(v, ip.Adt) and v.ty == ip.RESULT and v.variant == 1:
+                if not any(e[0] == "rejects-input" for e in o.state.events):
+                    bad.append("a well-formed %s entry is rejected from state %s" % (kind, sh.describe()))
+                return None
+            em = ac.emissions(o.state, ("acc",))
+            r = ac.check_gap(o.state.facts, em, ({"N": 1}, 0), ({"N": 1, "G": 1}, -1))
+            if r is not None:
+                bad.append("%s entry starting G code points after the last one, state %s: %s" % (kind, sh.describe(), r))
+            return o.state.heap[("arg", 0)]
+
+        shapes, n_paths = ac.explore(prog, world, step_key, make_args, init, new_n, on_path)
+        rep.ob(rule, "every step emits exactly the code points skipped since the previous entry (%d state shapes, %d paths)" % (len(shapes), n_paths), not bad, "; ".join(sorted(set(bad))[:2]), where, key="%s|step" % rule, sample=True)
+        # finish: everything from N to U+10FFFF
+        fbad = []
+        n_fin = 0
+        for sh in shapes:
+            st0 = ip.State()
+            st0.facts.update(ac.facts_of(sh))
+            st0.heap[("arg", 0)] = sh.value
+            outs = m.run(m.start(fin_key, [ip.Ref(("heap", ("arg", 0), ())), ip.Ref(("val", ip.Opq("file", ())))], st0), max_paths=2000)
+            for o in outs:
+                n_fin += 1
+                if o.kind != "return":
+                    fbad.append("finishing from %s ends with %s" % (sh.describe(), o.kind))
+                    continue
+                v = o.value
+                if isinstance(v, ip.Adt) and v.ty == ip.RESULT and v.variant == 1:
+                    continue
+                writes = [e for e in o.state.events if e[0] == "write"]
+                clones = {e[1]: e[2] for e in o.state.events if e[0] == "clone"}
+                if len(writes) != 1:
+                    fbad.append("the table is written %d times" % len(writes))
+                    continue
+                wid = writes[0][1]
+                chain = [wid]
+                while chain[-1] in clones:
+                    chain.append(clones[chain[-1]])
+                if ("acc",) not in chain:
+                    fbad.append("the vector written is not (a copy of) the accumulated one")
+                    continue
+                em = [(e[2], e[3]) for e in o.state.events if e[0] == "emit" and e[1] in chain]
+                r = ac.check_gap(o.state.facts, em, ({"N": 1}, 0), ({}, ac.MAXCP))
+                if r is not None:
+                    fbad.append("after the last entry, state %s: %s" % (sh.describe(), r))
+        rep.ob(rule, "the code points after the last entry are emitted up to U+10FFFF (%d finishing paths)" % n_fin, not fbad, "; ".join(sorted(set(fbad))[:2]), prog.body(fin_key).where(), key="%s|finish" % rule, sample=True)
+        rep.extra["gap_state_shapes"] = [sh.describe() for sh in shapes]
+    except ip.AnalysisError as e:
+        rep.analysis_error(rule, "UnassignedTableGen", e, where)
+
+
+def merge_semantics(prog, rep):
+    """(vii) get_codepoints_vector turns any set of code points into entries that denote exactly that set:
+    induction over the loop's state shapes with a coverage monitor (pv/accum.py)."""
+    from .. import accum as ac
+    from .. import linform as lf
+
+    key = "precis_tools::common::get_codepoints_vector"
+    rule = "merge-semantics"
+    b = prog.body(key)
+    if b is None:
+        rep.ob(rule, key, False, "function not found", key="%s|anchor" % rule)
+        return
+    rep.fn(key)
+    world = ac.AccWorld(prog)
+    bad, ebad = [], []
+    ret_vec = []
+
+    def emitted(o):
+        # entries pushed during this step, to whichever vector (the output vector is identified at the end)
+        return [(e[1], e[2], e[3]) for e in o.state.events if e[0] == "emit"]
+
+    def on_step(sh, o):
+        em = emitted(o)
+        u = lf.to_lf(o.state.ext["v:U"])
+        first = ({"N": 1, "G": 1}, 0)
+        err, leaves = ac.cover_step(o.state.facts, [(x[1], x[2]) for x in em], u, first, first)
+        if err is not None:
+            bad.append("%s  [state: %s]" % (err, sh.describe()))
+            return None
+        for x in em:
+            ret_vec.append(x[0])
+        return leaves
+
+    def on_end(sh, o):
+        em = emitted(o)
+        u = lf.to_lf(o.state.ext["v:U"])
+        n1 = ({"N": 1}, -1)
+
+        def pred(f):
+            ne = []
+            for _, lo, hi in em:
+                d = lf.add(lf.to_lf(hi), lf.to_lf(lo), -1)
+                if lf.ask(f, "Ge", d):
+                    ne.append((lf.to_lf(lo), lf.to_lf(hi)))
+            empty = lf.ask(f, "Gt", lf.add(u, n1, -1))
+            got = ["%s..=%s" % (lf.fmt(lf.simplify(f, a)), lf.fmt(lf.simplify(f, c))) for a, c in ne]
+            if empty:
+                return None if not ne else "emits %s after the last element although nothing is pending" % got
+            want = "%s..=%s" % (lf.fmt(lf.simplify(f, u)), lf.fmt(lf.simplify(f, n1)))
+            if len(ne) != 1 or not lf.ask(f, "Eq", lf.add(ne[0][0], u, -1)) or not lf.ask(f, "Eq", lf.add(ne[0][1], n1, -1)):
+                return "when the input is exhausted the pending elements %s are emitted as %s" % (want, got or "nothing")
+            return None
+
+        r = lf.forall(o.state.facts, pred)
+        if r is not None:
+            ebad.append("%s  [state: %s]" % (r, sh.describe()))
+        v = o.value
+        if not (isinstance(v, ip.Opq) and v.kind == "vec"):
+            ebad.append("returns %r, not the vector of entries" % (v,))
+        else:
+            for x in em:
+                ret_vec.append(x[0])
+            ids = {x for x in ret_vec}
+            if ids - {v.data}:
+                ebad.append("entries are pushed into a vector other than the returned one")
+
+    try:
+        shapes, n_paths, errors = ac.explore_loop(prog, world, key, [ip.Ref(("val", ip.Opq("fresh", ("HashSet<u32>", "arg"))))], on_step, on_end)
+    except ip.AnalysisError as e:
+        rep.analysis_error(rule, key, e, b.where())
+        return
+    if errors and not bad and not ebad:
+        rep.analysis_error(rule, key, ip.AnalysisError(errors[0]), b.where())
+        return
+    rep.ob(rule, "every loop step keeps `emitted ∪ pending = elements consumed` (%d state shapes, %d paths)" % (len(shapes), n_paths), not bad, "; ".join(sorted(set(bad))[:2]), b.where(), key="%s|step" % rule, sample=True)
+    rep.ob(rule, "the pending run is emitted, whole and once, when the input is exhausted", not ebad, "; ".join(sorted(set(ebad))[:2]), b.where(), key="%s|finish" % rule, sample=True)
+    rep.extra["merge_state_shapes"] = [sh.describe() for sh in shapes]
+
+
 def run(tier):
     rep = Report("C15", tier, __doc__)
     prog = Program()
@@ -379,6 +556,8 @@ def run(tier):
     sort_before_merge(prog, rep)
     accumulators(prog, rep)
     entry_kind_agreement(prog, rep)
+    gap_semantics(prog, rep)
+    merge_semantics(prog, rep)
     rep.not_decided += [
         "values computed by run compression / gap tracking for arbitrary (unbounded) entry sequences",
         "ucd-parse's own line grammar",
